@@ -201,9 +201,119 @@ def activate_pair(kind, k, traffic=True):
     return dict(id="%s.%d" % (kind, k), const=dict(kind=kind, k=k, cfg=x), ev=ev)
 
 
+def projection(air, llc_i, llc_t):
+    ini, tgt = llc_i.mac, llc_t.mac
+    atr_req = [f for f in air.log if f.src == "I" and b"\xD4\x00" in f.data[:4]][-1]
+    atr_res = [f for f in air.log if f.src == "T" and b"\xD5\x01" in f.data[:4]][-1]
+    psl = [f for f in air.log if f.src == "I" and b"\xD4\x04" in f.data[:4]]
+    a, b = atr_req.data, atr_res.data
+    ci, ct = llc_i.cfg, llc_t.cfg
+    return dict(
+        acm=bool(ini.acm), psl=bool(psl), brty0=atr_req.brty,
+        airLrI=LR[(a[a.index(b"\xD4\x00") + 15] >> 4) & 3], airLrT=LR[(b[b.index(b"\xD5\x01") + 16] >> 4) & 3],
+        iBrty=ini.target.brty, tBrty=tgt.target.brty, iAcm=bool(ini.acm), tAcm=bool(tgt.acm),
+        iWt=wt_index(ini.rwt), tWt=wt_index(tgt.rwt),
+        iDepMiu=ini.miu, iSendMiu=ci["send-miu"], iRecvMiu=ci["recv-miu"], iSendLto=ci["send-lto"],
+        iRecvLto=ci["recv-lto"], iSendWks=ci["send-wks"], iSendLsc=ci["send-lsc"], iAgf=bool(ci["send-agf"]),
+        tDepMiu=tgt.miu, tSendMiu=ct["send-miu"], tRecvMiu=ct["recv-miu"], tSendLto=ct["send-lto"],
+        tRecvLto=ct["recv-lto"], tSendWks=ct["send-wks"], tSendLsc=ct["send-lsc"], tAgf=bool(ct["send-agf"]))
+
+
+def traffic_pair(kind, k):
+    """activation through connect() *with* the run loops, applications filling the frames to the limits"""
+    from bind import c19_traffic as tf
+    x = grid_cfg(kind, k)
+    air = Air()
+    clf_i, clf_t = air.frontends()
+    if x["disc"] == "F":
+        air.devices["T"].listen_tech = ("212F", "424F")
+    shared = {}
+    app = {"i": tf.App("i", x, k, air, shared), "t": tf.App("t", x, k, air, shared)}
+    opts = {}
+    for s, role in (("i", "initiator"), ("t", "target")):
+        a = app[s]
+        opts[s] = {"role": role, "on-startup": a.on_startup, "on-connect": a.on_connect, "on-release": a.on_release}
+    opts["i"].update(brs=x["brs"], acm=x["acm"], rwt=x["xrwtI"], lrt=x["xlrtI"], lri=x["lri"], miu=x["miuI"],
+                     lto=x["ltoI"], lsc=x["lscI"], agf=x["agfI"])
+    opts["t"].update(brs=x["xbrsT"], acm=x["xacmT"], rwt=x["rwt"], lrt=x["lrt"], lri=x["xlriT"], miu=x["miuT"],
+                     lto=x["ltoT"], lsc=x["lscT"], agf=x["agfT"])
+    waits = {"I": set(), "T": set()}
+
+    def on_wait(name, timeout, activated):
+        # the timeouts the run loops ask for (between activation and the decision to close)
+        if "mark_i" in shared and "mark_t" in shared and "closing" not in shared and timeout is not None:
+            waits[name].add(int(round(timeout * 13.56E6)))
+    air.on_wait = on_wait
+    old_os, old_rnd = nfc.dep.os, nfc.llcp.llc.random
+    nfc.dep.os = _SeededOs(k & 0xFFFF)
+    import random as _random
+    nfc.llcp.llc.random = _random.Random(k)
+    air.clock.install(nfc.dep, nfc.clf, nfc.llcp.llc)
+    try:
+        res = air.run(lambda: clf_i.connect(llcp=opts["i"], terminate=app["i"].hook),
+                      lambda: clf_t.connect(llcp=opts["t"], terminate=app["t"].hook))
+    finally:
+        air.clock.uninstall()
+        nfc.dep.os, nfc.llcp.llc.random = old_os, old_rnd
+    for r in res:
+        if r[0] == "exc":
+            raise r[1]
+    ok_i, ok_t = app["i"].active, app["t"].active
+    ev = [dict(a="Activate", ok=ok_i and ok_t, ok_i=ok_i, ok_t=ok_t, proj={})]
+    tr = dict(id="%s.%d" % (kind, k), const=dict(kind=kind, k=k, cfg=x), ev=ev)
+    if not (ok_i and ok_t):
+        return tr
+    ev[0]["proj"] = projection(air, shared["i"], shared["t"])
+    start = max(shared["mark_i"], shared["mark_t"])
+    start = min(shared["mark_i"], shared["mark_t"])
+    stop = shared.get("closing", len(air.log))
+    # LLC PDUs reassembled from the air, up to the decision to close
+    last_rx = {"I": None, "T": None}
+    turn = {"I": 0, "T": 0}
+    for d, data, t in tf.llc_frames(air.log, start, stop):
+        desc = tf.llc_desc(data)
+        desc.update(a="Llc", dir=d)
+        ev.append(desc)
+    # turn-around: virtual time between the end of a received LLC PDU and the first frame of the answer
+    for fr in air.log[start:stop]:
+        kd, more, _, _ = tf.dep_parse(fr)
+        if kd != "INF":
+            continue
+        if last_rx[fr.src] is not None:
+            turn[fr.src] = max(turn[fr.src], int(round((fr.time - last_rx[fr.src]) * 1E6)))
+            last_rx[fr.src] = None
+        if not more:
+            last_rx[fr.dst] = fr.time
+    # every DEP frame after activation (also the closing phase): distinct (dir, size, bit rate)
+    dep = {}
+    for fr in air.log[start:]:
+        kd, _, _, size = tf.dep_parse(fr)
+        key = ("IT" if fr.src == "I" else "TI", -1 if size is None else size, fr.brty)
+        dep[key] = dep.get(key, 0) + 1
+    ev.append(dict(a="Dep", frames=[dict(dir=d, size=s, brty=b, n=n) for (d, s, b), n in sorted(dep.items())]))
+    ev.append(dict(a="Waits", side="I", cyc=sorted(waits["I"])))
+    ev.append(dict(a="Waits", side="T", cyc=sorted(waits["T"])))
+    ev.append(dict(a="Turn", side="I", us=turn["I"]))
+    ev.append(dict(a="Turn", side="T", us=turn["T"]))
+    # what the applications received
+    for src, dst, d in (("i", "t", "IT"), ("t", "i", "TI")):
+        sent = [tf.pattern(tag, n) for tag, n in app[src].ui_sent]
+        got = app[dst].ui_rcvd
+        ev.append(dict(a="Data", dir=d, kind="UI", sent=len(sent), rcvd=len(got), ok=all(g in sent for g in got),
+                       problems=len(app[src].errors)))
+        sent = [tf.pattern(tag, n) for tag, n in app[src].i_sent]
+        got = app[dst].i_rcvd
+        ev.append(dict(a="Data", dir=d, kind="I", sent=len(sent), rcvd=len(got), ok=got == sent[:len(got)],
+                       problems=len(app[src].errors)))
+    tr["errors"] = app["i"].errors + app["t"].errors
+    return tr
+
+
 def run_item(item):
     kind, k, traffic = item
-    tr = activate_pair(kind, k, traffic)
+    if traffic:
+        return traffic_pair(kind, k)
+    tr = activate_pair(kind, k, False)
     tr["ev"][0].pop("act_frames", None)
     return tr
 
